@@ -20,6 +20,7 @@ import (
 	"errors"
 	"fmt"
 	"math/big"
+	"net/http"
 	"net/url"
 	"os"
 	"sort"
@@ -233,7 +234,10 @@ type params struct {
 	flow     string
 	cid      string // the client: "web" or "desk" (same registration under another id)
 	issuer   string // the issuer of this case's requests
-	dynIssuer bool  // provider built with op.IssuerFromHost: the issuer is derived from every request
+	dynIssuer bool  // the issuer is derived from every request (issMode != "static")
+	issMode  string // static | host (op.IssuerFromHost) | forwarded (op.IssuerFromForwardedOrHost) | custom (... WithIssuerFromCustomHeaders)
+	uiReplace bool  // storage style: SetUserinfoFrom* REPLACE the destination struct instead of setting fields of it
+	upstream string // forwarded / custom: the Host the provider sees behind the proxy; "" = the request arrives directly (no header: fallback to Host)
 	customs  []string // the custom:<name> scopes added to the request (claim-name dimension)
 	key      int
 	mat      int  // which of the algorithm's two key materials signs
@@ -469,10 +473,21 @@ func gen(r drv.Rand, i int, nKeys int, histSlot bool) params {
 	p.cid = drv.Pick(r, []string{"web", "web", "desk"})
 	p.issuer = opfix.Issuer
 	// every grant x router also under an issuer that is derived from each request
-	if (i/(2*len(flows)))%2 == 1 || r.Chance(1, 4) {
+	// - from its Host, or from the Forwarded / a custom header a reverse proxy sets while every
+	// external host arrives with the SAME upstream Host
+	p.issMode = "static"
+	if blk := (i / (2 * len(flows))) % 4; blk%2 == 1 || r.Chance(1, 4) {
 		p.dynIssuer = true
 		p.issuer = "https://" + drv.Pick(r, issuerHosts)
+		p.issMode = "host"
+		if blk == 3 || (blk%2 == 0 && r.Bool()) {
+			p.issMode = drv.Pick(r, []string{"forwarded", "forwarded", "custom"})
+			if r.Chance(3, 4) {
+				p.upstream = proxyUpstream
+			}
+		}
 	}
+	p.uiReplace = r.Chance(1, 3)
 	p.router = opfix.Router(i % 2)
 	p.flow = flows[(i/2)%len(flows)]
 	p.key = (i / (2 * len(flows)) + i) % nKeys
@@ -700,6 +715,9 @@ func setup(p params, sk signState, provAlgs []string) (*refstore.Store, *opfix.F
 	st := opfix.NewStd()
 	st.EnableRichClaims()             // every standard scope yields a claim group (refstore/ext_c06.go)
 	st.EnableCustomUserinfoClaims()   // custom:<n> also yields the userinfo claim <n> (ID tokens)
+	if p.uiReplace {
+		st.EnableUserinfoReplace() // the storage assigns a whole record to the userinfo it is handed
+	}
 	applyKey(st, sk)
 	desk := *st.Clients["web"] // the same registration under an id with s and k in it
 	desk.ID, desk.Secret = "desk", "desk-secret"
@@ -722,9 +740,13 @@ func setup(p params, sk signState, provAlgs []string) (*refstore.Store, *opfix.F
 	var f *opfix.Fixture
 	var err error
 	issuerFn := op.StaticIssuer(p.issuer)
-	if p.dynIssuer {
-		// the issuer of every request is https://<Host of that request>
+	switch p.issMode {
+	case "host": // the issuer of every request is https://<Host of that request>
 		issuerFn = op.IssuerFromHost("")
+	case "forwarded": // ... https://<host parameter of the Forwarded header>, else Host
+		issuerFn = op.IssuerFromForwardedOrHost("")
+	case "custom": // ... of the custom header only
+		issuerFn = op.IssuerFromForwardedOrHost("", op.WithIssuerFromCustomHeaders(customFwdHeader))
 	}
 	if pol := (refstore.TEPolicy{Subject: p.tePolSub, EmptyScopes: p.tePolEmpty}); pol != (refstore.TEPolicy{}) {
 		// a storage whose ValidateTokenExchangeRequest retargets the request (refstore/ext_c15.go)
@@ -736,8 +758,40 @@ func setup(p params, sk signState, provAlgs []string) (*refstore.Store, *opfix.F
 	if err != nil {
 		panic(err)
 	}
+	// every request passes the "reverse proxy" (a no-op unless the case says otherwise)
+	cfg := &proxyCfg{}
+	proxies[f] = cfg
+	for i := range f.Handlers {
+		f.Handlers[i] = &proxy{inner: f.Handlers[i], cfg: cfg}
+	}
 	return st, f
 }
+
+// The reverse proxy in front of the provider. The driver addresses every request to the EXTERNAL
+// host (https://<external><path>); for the forwarded / custom issuer strategies the proxy moves that
+// host into the Forwarded (custom) header and hands the request on with its own upstream Host - the
+// same for every external host.
+const (
+	proxyUpstream   = "op.internal:8080"
+	customFwdHeader = "X-Tenant-Forwarded"
+)
+
+type proxyCfg struct{ header, upstream string }
+
+type proxy struct {
+	inner http.Handler
+	cfg   *proxyCfg
+}
+
+func (p *proxy) ServeHTTP(w http.ResponseWriter, r *http.Request) {
+	if p.cfg.header != "" && p.cfg.upstream != "" {
+		r.Header.Set(p.cfg.header, `for=192.0.2.7;host="`+r.Host+`";proto=https`)
+		r.Host = p.cfg.upstream
+	}
+	p.inner.ServeHTTP(w, r)
+}
+
+var proxies = map[*opfix.Fixture]*proxyCfg{}
 
 var allGrants = []oidc.GrantType{oidc.GrantTypeCode, oidc.GrantTypeRefreshToken, oidc.GrantTypeClientCredentials,
 	oidc.GrantTypeBearer, oidc.GrantTypeTokenExchange, oidc.GrantTypeDeviceCode, oidc.GrantTypeImplicit}
@@ -1309,6 +1363,15 @@ func oneCaseRot(p params, sk, sk2 signState, rot int, st *refstore.Store, f *opf
 	var res *result
 	configure(st, p)          // the client-side parameters of THIS issuance (histories change them between issuances)
 	f.Opts.Issuer = p.issuer  // scheme://host of this case's requests (a dynamic-issuer provider derives the issuer from it)
+	if cfg := proxies[f]; cfg != nil {
+		cfg.header, cfg.upstream = "", p.upstream
+		switch p.issMode {
+		case "forwarded":
+			cfg.header = "Forwarded"
+		case "custom":
+			cfg.header = customFwdHeader
+		}
+	}
 	arm := func() {
 		if rot > 0 {
 			st.RotateAfterSigningKeyCalls(rot, func() { applyKey(st, sk2) })
@@ -1519,9 +1582,9 @@ func oneCaseRot(p params, sk, sk2 signState, rot int, st *refstore.Store, f *opf
 	if contains(res.rqScopes, "openid") {
 		openid = "1"
 	}
-	issKind := "static"
-	if p.dynIssuer {
-		issKind = "dynamic"
+	issKind := p.issMode
+	if p.dynIssuer && p.issMode != "host" {
+		issKind += map[bool]string{true: "-proxied", false: "-direct"}[p.upstream != ""]
 	}
 	tepol := "na"
 	if strings.HasPrefix(p.flow, "te_") {
@@ -1536,7 +1599,7 @@ func oneCaseRot(p params, sk, sk2 signState, rot int, st *refstore.Store, f *opf
 			tepol = "noscopes"
 		}
 	}
-	tags := []string{"tepolicy=" + tepol, fmt.Sprintf("actor=%v", res.rqActor != ""), "client=" + p.cid, "issuer=" + issKind, "aud=" + audClass(res.rqAud, res.client), "claimnames=" + nameClass(p.customs),
+	tags := []string{"uistyle=" + map[bool]string{true: "replace", false: "fields"}[p.uiReplace], "tepolicy=" + tepol, fmt.Sprintf("actor=%v", res.rqActor != ""), "client=" + p.cid, "issuer=" + issKind, "aud=" + audClass(res.rqAud, res.client), "claimnames=" + nameClass(p.customs),
 		"router=" + p.router.String(), "flow=" + p.flow, "at=" + atKind, "alg=" + string(sk.alg), fmt.Sprintf("skew=%d", p.skew),
 		fmt.Sprintf("idlife=%d", p.idLife), fmt.Sprintf("atlife=%d", p.atLife), "subject_colon=" + colon, "openid=" + openid,
 		"assert=" + emit.Bool(p.assert), fmt.Sprintf("offset=%d", p.offset), fmt.Sprintf("custom=%v", contains(res.rqScopes, "custom:x") || contains(res.rqScopes, "custom:y")),
@@ -1567,6 +1630,18 @@ func history(r drv.Rand, p params, sk1 signState, algs []algDef, pool []any, w *
 		// one provider whose issuer is derived from each request: the same flow for host A, host B, host A
 		pA, pB := p, p
 		pA.dynIssuer, pB.dynIssuer = true, true
+		if pA.issMode == "static" || r.Chance(2, 3) {
+			// mostly behind the proxy: both external hosts arrive with the same upstream Host
+			pA.issMode = drv.Pick(r, []string{"host", "forwarded", "forwarded", "custom"})
+			pA.upstream = ""
+			if pA.issMode != "host" {
+				pA.upstream = proxyUpstream
+			}
+		}
+		pB.issMode, pB.upstream = pA.issMode, pA.upstream
+		if pA.issMode != "host" && r.Chance(1, 4) {
+			pB.upstream = "" // ... or B comes in directly
+		}
 		h := r.IntN(len(issuerHosts))
 		pA.issuer = "https://" + issuerHosts[h]
 		pB.issuer = "https://" + issuerHosts[(h+1+r.IntN(len(issuerHosts)-1))%len(issuerHosts)]
@@ -1712,7 +1787,7 @@ func main() {
 		history(r, p, sk0(p, algs), algs, pool, w, tl)
 	}
 	err := w.Close(emit.Meta{Property: "C06", Tier: cfg.Tier, Seed: cfg.Seed,
-		Rule: "one case = one token response: a complete flow (code, implicit id_token / id_token token, refresh, device, client_credentials, jwt-bearer, token-exchange for access / refresh / ID token) run over HTTP recorders against the Provider or LegacyServer router on refstore; flow and router cycle deterministically, the rest is drawn from the PRNG: signing key (RS256, PS256, ES256, ES384, ES512, EdDSA; two key materials per algorithm under the SAME kid, kid shared across algorithms in half of the cases; published with use sig or without use, with further keys before / after it: previous key, an enc key and a key of another type under the same kid, rarely a clashing signature key), access-token type, client clock skew (0, +-30 s), ID/access-token lifetimes, scope set (15 base sets plus a random extra standard scope: with/without openid, every subset pattern of profile/email/phone/address, offline_access, custom:x/y; the storage serves a distinct claim group per standard scope and marks userinfo scopes that reach the private-claims lookup), restricted scopes, userinfo-assertion flag, subject (also with ':', unknown to the user store, case / white-space neighbours of other subjects, keyword-like values), client (web, or the same registration as desk), issuer (static, or - every other block of all flows x routers plus a quarter of the rest - derived from each request's Host by op.IssuerFromHost, five hosts incl. a port and mixed case), the storage-defined audience (default, empty, the exact client id, near misses of the client id: case variants, U+017F / U+212A fold variants, white space / %20 / + / tab / LF around it, trailing slash; other values; several; for authorization, device and token-exchange requests), custom claim names (half of the cases add 1-2 scopes custom:<n>, which the storage turns into the private claim <n> of a JWT access token and the userinfo claim <n> of an ID token: exact names, ASCII-case variants and U+017F / U+212A fold variants of the registered members this case's tokens are certain to carry, near misses that fold to no member, variants of sid / scope), the token-exchange storage policy of the fixture (plain, or ValidateTokenExchangeRequest retargets the request's subject - another known / unknown user - and / or empties its scopes; the request may ask for scope drop, which the storage removes; a third of the exchanges present an actor_token of a third user: the case names the request's FINAL subject / scopes and the actor), nonce/acr/state (also white space at the ends, null / 0 / false / [], longer than 1 KiB and 4 KiB), amr, auth time, and the verifier configuration (consistent in most cases; default algorithm list, short offset against a negative skew as inconsistent ones). Every fourth slot is a multi-issuance history in one store/provider (tag hist=): issue, replace the storage's signing key (same kid new material and back; new kid new material with the old key still published; same kid other algorithm), issue again - or two providers alive at once with the same kid and different key material, issuing alternately, or the signing key replaced after the 1st / 2nd Storage.SigningKey call WITHIN the request under test (new kid, mostly another hash family, both keys published), or one dynamic-issuer provider serving host A, host B, host A (two_issuers), or one provider serving a request that carries every optional field (nonce, acr, amr, audience, auth time, custom claims), then a request of another flow / maybe the other client for the same subject that OMITS them, then the rich request for the other client, then the first again (omit_after); each response is a case of its own whose input names the key current at that issuance and which is verified against the /keys document served at that time. Claims are compared as the library's own decoder reads the signed payload (json.Unmarshal into oidc.IDTokenClaims / oidc.AccessTokenClaims). Every case issues tokens, so non-trivial = all; distinct = distinct (input, model path class: flow x token kind x refresh token x verdicts).",
+		Rule: "one case = one token response: a complete flow (code, implicit id_token / id_token token, refresh, device, client_credentials, jwt-bearer, token-exchange for access / refresh / ID token) run over HTTP recorders against the Provider or LegacyServer router on refstore; flow and router cycle deterministically, the rest is drawn from the PRNG: signing key (RS256, PS256, ES256, ES384, ES512, EdDSA; two key materials per algorithm under the SAME kid, kid shared across algorithms in half of the cases; published with use sig or without use, with further keys before / after it: previous key, an enc key and a key of another type under the same kid, rarely a clashing signature key), access-token type, client clock skew (0, +-30 s), ID/access-token lifetimes, scope set (15 base sets plus a random extra standard scope: with/without openid, every subset pattern of profile/email/phone/address, offline_access, custom:x/y; the storage serves a distinct claim group per standard scope and marks userinfo scopes that reach the private-claims lookup), restricted scopes, userinfo-assertion flag, subject (also with ':', unknown to the user store, case / white-space neighbours of other subjects, keyword-like values), client (web, or the same registration as desk), issuer strategy (static; or - every other block of all flows x routers plus a quarter of the rest - derived from each request: op.IssuerFromHost, or op.IssuerFromForwardedOrHost with the Forwarded header or with a custom header, where a reverse proxy in front of the provider moves the external host into that header and hands every request on with the SAME upstream Host, or lets it through directly; five external hosts incl. a port and mixed case), storage style of the userinfo calls (sets fields of the destination / replaces the whole struct), the storage-defined audience (default, empty, the exact client id, near misses of the client id: case variants, U+017F / U+212A fold variants, white space / %20 / + / tab / LF around it, trailing slash; other values; several; for authorization, device and token-exchange requests), custom claim names (half of the cases add 1-2 scopes custom:<n>, which the storage turns into the private claim <n> of a JWT access token and the userinfo claim <n> of an ID token: exact names, ASCII-case variants and U+017F / U+212A fold variants of the registered members this case's tokens are certain to carry, near misses that fold to no member, variants of sid / scope), the token-exchange storage policy of the fixture (plain, or ValidateTokenExchangeRequest retargets the request's subject - another known / unknown user - and / or empties its scopes; the request may ask for scope drop, which the storage removes; a third of the exchanges present an actor_token of a third user: the case names the request's FINAL subject / scopes and the actor), nonce/acr/state (also white space at the ends, null / 0 / false / [], longer than 1 KiB and 4 KiB), amr, auth time, and the verifier configuration (consistent in most cases; default algorithm list, short offset against a negative skew as inconsistent ones). Every fourth slot is a multi-issuance history in one store/provider (tag hist=): issue, replace the storage's signing key (same kid new material and back; new kid new material with the old key still published; same kid other algorithm), issue again - or two providers alive at once with the same kid and different key material, issuing alternately, or the signing key replaced after the 1st / 2nd Storage.SigningKey call WITHIN the request under test (new kid, mostly another hash family, both keys published), or one dynamic-issuer provider serving external host A, host B, host A - by Host, or both through the same proxy upstream Host by Forwarded / custom header, B sometimes directly (two_issuers), or one provider serving a request that carries every optional field (nonce, acr, amr, audience, auth time, custom claims), then a request of another flow / maybe the other client for the same subject that OMITS them, then the rich request for the other client, then the first again (omit_after); each response is a case of its own whose input names the key current at that issuance and which is verified against the /keys document served at that time. Claims are compared as the library's own decoder reads the signed payload (json.Unmarshal into oidc.IDTokenClaims / oidc.AccessTokenClaims). Every case issues tokens, so non-trivial = all; distinct = distinct (input, model path class: flow x token kind x refresh token x verdicts).",
 		Extra: map[string]any{"clock_ambiguous": tl.ambiguous, "setup_failed": tl.failedSetup}})
 	if err != nil {
 		fmt.Fprintln(os.Stderr, err)
